@@ -18,11 +18,13 @@ NSHARDS = 16
 
 def shard_args(tier, seed):
     u, k = BUDGET[tier]
-    return [{"universes": max(1, u // NSHARDS), "searches": k, "seed": seed * 1000 + i} for i in range(NSHARDS)]
+    return [{"universes": max(1, u // NSHARDS), "searches": k, "seed": seed * 1000 + i, "dataconf_variant": i % 3 == 1} for i in range(NSHARDS)]
 
 
 def envs(snap, shard_args_list):
-    return [snap.env(conf_dir=snap.conf_copy("w%d" % i)) for i in range(len(shard_args_list))]
+    # every third shard runs under a second data configuration (Finders / Getters created once per path configuration, dispatching on 'config')
+    from lib import dataconf_variant
+    return dataconf_variant.envs(snap, shard_args_list)
 
 
 def floors(m, tier):
@@ -34,7 +36,9 @@ def floors(m, tier):
             "junk items planted": (c.get("junk_planted", 0), u * 4),
             "desynchronised junk planted": (c.get("junk_desync", 0), u // 4),
             "FindInAll vs R7": (c.get("all_vs_r7", 0), u * k // 4),
-            "constant-backed answers": (c.get("all_constant_levels", 0), u)}
+            "constant-backed answers": (c.get("all_constant_levels", 0), u),
+            "searches under the second data configuration": (c.get("searches_under_second_data_configuration", 0), u * k // 10),
+            "FindInAll(non-default config) vs R7": (c.get("all_config_vs_r7", 0), u * k // 20)}
 
 
 def run(snap, tier, seed, t0, replay):
@@ -115,6 +119,15 @@ def compare_all(rec, lab, s, case, junk_phase=False, baseline=None):
                 rec.count("all_constant_levels")
             if res["all"] != exp:
                 rec.violation("FindInAll_vs_R7", case, "missing=%r extra=%r" % (sorted(exp - res["all"])[:5], sorted(res["all"] - exp)[:5]))
+        for c2, am in lab.allmodels.items():
+            exp = am.ans_all(s)
+            if exp is not None:
+                rec.count("all_config_vs_r7")
+                if res["all:" + c2] != exp:
+                    rec.violation("FindInAll_config_vs_R7", dict(case, finder="all:" + c2), "missing=%r extra=%r" % (
+                        sorted(exp - res["all:" + c2])[:5], sorted(res["all:" + c2] - exp)[:5]))
+    if lab.dataconf_variant:
+        rec.count("searches_under_second_data_configuration")
     return res
 
 
@@ -143,7 +156,8 @@ def worker(args):
         baselines = {}
         for s in searches:
             rec.ev()
-            case = {"search": s, "ents": ents, "names": lab.names, "only_default": lab.only_default, "uid": uid}
+            case = {"search": s, "ents": ents, "names": lab.names, "only_default": lab.only_default, "uid": uid,
+                    "dataconf_variant": lab.dataconf_variant}
             baselines[s] = compare_all(rec, lab, s, case)
             # as_sid: results typed, same strings
             if rng.random() < 0.15 and baselines[s] is not None:
@@ -160,7 +174,8 @@ def worker(args):
         for s in searches:
             if baselines[s] is None:
                 continue
-            case = {"search": s, "ents": ents, "names": lab.names, "only_default": lab.only_default, "uid": uid, "junk_seed": junk_seed}
+            case = {"search": s, "ents": ents, "names": lab.names, "only_default": lab.only_default, "uid": uid, "junk_seed": junk_seed,
+                    "dataconf_variant": lab.dataconf_variant}
             compare_all(rec, lab, s, case, junk_phase=True, baseline=baselines[s])
         if u == 0:
             root = lab.trees.pms[lab.default_config].root
